@@ -210,8 +210,8 @@ func genApis(w io.Writer) {
 	fmt.Fprintln(w, "*)")
 	fmt.Fprintln(w)
 
-	fmt.Fprintln(w, "(* for every method with m_signs = true: (namespace, wire name, receiver type, ALL keystore entry points reachable from it) *)")
-	fmt.Fprintln(w, "Definition gen_sign_targets : list (bytes * bytes * bytes * list bytes) := Eval vm_compute in [")
+	fmt.Fprintln(w, "(* for every method with m_signs = true: (namespace, wire name, receiver type, ALL keystore entry points reachable from it, the entry points still reachable when clique.Clique.Seal is cut out of the call graph) *)")
+	fmt.Fprintln(w, "Definition gen_sign_targets : list (bytes * bytes * bytes * list bytes * list bytes) := Eval vm_compute in [")
 	firstT := true
 	seenT := map[string]bool{}
 	for _, l := range [][]apiInfo{infos, infosClique} {
@@ -231,7 +231,11 @@ func genApis(w io.Writer) {
 				for _, t := range res.Targets[r] {
 					ts = append(ts, c18Str(t))
 				}
-				fmt.Fprintf(w, "  (%s, %s, %s, [%s])", c18Str(inf.api.Namespace), c18Str(m.Name), c18Str(m.Recv.String()), strings.Join(ts, "; "))
+				var tn []string
+				for _, t := range res.TargetsNoSeal[r] {
+					tn = append(tn, c18Str(t))
+				}
+				fmt.Fprintf(w, "  (%s, %s, %s, [%s], [%s])", c18Str(inf.api.Namespace), c18Str(m.Name), c18Str(m.Recv.String()), strings.Join(ts, "; "), strings.Join(tn, "; "))
 			}
 		}
 	}
